@@ -155,7 +155,7 @@ package wal
 //@ -- the persisted view lists the map in key order: SInv carries over to PInv
 //@ func (*state).Persistent
 //@   props C03 C04 C13
-//@   requires SInv(s)
+//@   requires SInv(s) && (smnonempty(s.segments) ==> unsealedSeg(smget(s.segments, smmax(s.segments))))
 //@   ensures[C03.persist-pinv] types.PInv(result)
 //@   ensures[C13.persist-nextid] result.NextSegmentID == s.nextSegmentID
 //@   ensures[C04.persist-complete] (smnonempty(s.segments) <==> len(result.Segments) > 0) && (smnonempty(s.segments) ==> result.Segments[0].BaseIndex == smmin(s.segments)
@@ -202,7 +202,7 @@ package wal
 //@   requires w.metaDB != nil && tx != nil && av(w.s) != nil && WFS(av(w.s))
 //@   assigns w.s, g_commits, g_open, av(w.s).refCount, av(w.s).finalizer
 //@   ensures[C03.published-state-wf] av(w.s) != nil && WFS(av(w.s))
-//@   site after-call(stateTxn#1) requires[C03.pinv-at-commit] callresult._2 == nil ==> SInv(newS)
+//@   site after-call(stateTxn#1) requires[C03.pinv-at-commit] callresult._2 == nil ==> SInv(newS) && smnonempty(newS.segments) && unsealedSeg(smget(newS.segments, smmax(newS.segments)))
 //@   site atomic-store(s) requires[C10.published-after-commit] g_commits == old(g_commits) + 1
 //@   site atomic-store(s) requires[C03.published-wf] WFS(stored)
 //@   site atomic-store(finalizer) requires[C04.finalizer-after-commit] g_commits == old(g_commits) + 1
@@ -371,7 +371,7 @@ package wal
 //@   props C12
 //@   assigns w.log, w.codec, w.sf, w.metrics, w.metaDB, w.segmentSize
 //@   ensures[C12.reserved-codec-id] old(w.codec) != nil && old(w.codec.codecID) < FirstExternalCodecID ==> result != nil
-//@   ensures result == nil ==> w.codec != nil && w.sf != nil && w.metrics != nil && w.metaDB != nil
+//@   ensures result == nil ==> w.codec != nil && w.sf != nil && w.metrics != nil && w.metaDB != nil && w.log != nil
 //@   ensures[C12.custom-codec-kept] result == nil && old(w.codec) != nil ==> w.codec == old(w.codec)
 
 //@ func (*WAL).newSegment
@@ -539,3 +539,30 @@ package wal
 //@   ensures[C05.reset-only-empty] old(LastOf(av(w.s))) != 0 ==> result != nil
 //@   ensures[C05.reset-applied] result == nil ==> EmptyLog(av(w.s)) && (newBaseIndex != 0 ==> av(w.s).tail.base == newBaseIndex)
 //@   ensures[C10.published-only-on-success] result != nil ==> av(w.s) == old(av(w.s))
+
+// ---------------------------------------------------------------------------
+// wal.go — Open: rebuild the state from the persisted metadata
+// ---------------------------------------------------------------------------
+
+//@ -- an option only configures the collaborators and sizes of the WAL it is applied to
+//@ func walOpt(w)
+//@   requires w != nil
+//@   assigns w.codec, w.metaDB, w.sf, w.log, w.metrics, w.segmentSize
+//@   ensures true
+
+//@ func Open
+//@   props C03 C04 C13
+//@   requires forall i int :: 0 <= i && i < len(opts) ==> opts[i] != nil
+//@   assigns g_open, g_commits
+//@   loop 1 invariant w != nil && w.triggerRotate != nil && !closed(w.triggerRotate) && w.closed == 0
+//@   loop 2 invariant newState.segments != nil && newState.tail == nil && newState.nextSegmentID == persisted.NextSegmentID && !recoveredTail
+//@   loop 2 invariant -1 <= rangeindex && rangeindex < len(persisted.Segments)
+//@   loop 2 invariant SInv(newState)
+//@   loop 2 invariant forall k uint64 :: {smhas(newState.segments, k)} smhas(newState.segments, k) ==> smget(newState.segments, k).r != nil && !unsealedSeg(smget(newState.segments, k))
+//@   loop 2 invariant rangeindex == -1 ==> !smnonempty(newState.segments)
+//@   loop 2 invariant rangeindex >= 0 ==> smnonempty(newState.segments) && smmax(newState.segments) == persisted.Segments[rangeindex].BaseIndex && smmin(newState.segments) == persisted.Segments[0].BaseIndex
+//@        && SameInfo(smget(newState.segments, smmax(newState.segments)), persisted.Segments[rangeindex])
+//@        && smget(newState.segments, smmin(newState.segments)).MinIndex == persisted.Segments[0].MinIndex
+//@   ensures[C03.open-wf] result1 == nil ==> result0 != nil && av(result0.s) != nil && WFS(av(result0.s))
+//@   ensures[C03.open-config] result1 == nil ==> result0.codec != nil && result0.sf != nil && result0.metaDB != nil && result0.metrics != nil && result0.closed == 0
+//@   ensures[C03.appendable] result1 == nil ==> !av(result0.s).tail.sealed
